@@ -75,3 +75,9 @@ def rho_adversarial3() -> Renaming:
     # look-alikes of dotted names: 'p.a.b' next to 'p.a_b' / 'p.axb' (a dot read as a wildcard matches them)
     return Renaming(["p", "a", "b", "c", "a_b", "a_c", "axb", "b_c", "a_b_c", "axc", "bxc", "d", "a_d", "axd", "b_d",
                      "e", "a_e", "f", "a_f", "g", "a_g", "h", "a_h", "i", "a_i", "j", "a_j", "k", "a_k", "l", "a_l"])
+
+
+def rho_case() -> Renaming:
+    # names that differ only in the case of their letters (a / A / aA ...): identity is case-sensitive
+    return Renaming(["a", "A", "aA", "Aa", "b", "B", "ab", "aB", "Ab", "AB", "c", "C", "m", "M", "mod", "Mod", "MOD", "x",
+                     "X", "xy", "xY", "Xy", "XY", "d", "D", "e", "E", "f", "F", "g", "G"])
